@@ -59,6 +59,9 @@ func c02Build() *c02World {
 	q := kit.Obj(kit.Thing, "n1", "q")
 	kit.Field(q, "quid", "metadata", "uid")
 	w.Sim.Seed(q)
+	// shared attachments: the target is a plain (non-controller) owner, the controller is someone else / nobody
+	w.Sim.Seed(kit.Ann(kit.Owners(att(kit.Leaf, "n1", "shared", "0"), kit.OwnerRef(kit.Thing, "q", "quid", true), kit.OwnerRef(kit.Thing, "p", "puid", false)), c02Marker, "dc"))
+	w.Sim.Seed(kit.Ann(kit.Owners(att(kit.Leaf, "n1", "plainowned", "0"), kit.OwnerRef(kit.Thing, "p", "puid", false)), c02Marker, "dc"))
 	for _, n := range []string{"a", "b", "d"} {
 		w.Sim.Seed(kit.Ann(att(kit.Leaf, "n2", n, "0"), c02Marker, "dc"))
 	}
